@@ -571,3 +571,7 @@ mutant("M85b-flip-clamped-by-numblocks", ["C01"], "UNITS-1", (MANIP, "          
 mutant("M85c-partial-reduce-clamped-by-shape", ["C01", "C15"], "UNITS-1", (OPS, "                    min((bi + 1) * split_every.get(i, 1), x.numblocks[i]),", "                    min((bi + 1) * split_every.get(i, 1), x.shape[i]),"))
 mutant("M85d-arg-offset-block-times-block", ["C01"], "UNITS-1", (OPS, "        size=to_chunksize(x.chunks)[axis],\n    )\n\n    # then reduce across blocks\n    return reduction(\n        out,\n        _arg_func,\n        combine_func=partial(_arg_combine, arg_func=arg_func),\n        aggregate_func=_arg_aggregate,", "        size=x.numblocks[axis],\n    )\n\n    # then reduce across blocks\n    return reduction(\n        out,\n        _arg_func,\n        combine_func=partial(_arg_combine, arg_func=arg_func),\n        aggregate_func=_arg_aggregate,"))
 mutant("M85e-region-offset-without-division", ["C05", "C11", "C01"], "UNITS-1", (OPS, "            (0 if sl.start is None else sl.start // cs)\n", "            (0 if sl.start is None else sl.start)\n"))
+
+mutant("M86-rechunk-storage-grid-not-split", ["C05"], "RECHUNK-GRID-1", (OPS, "        target_chunks = split_chunks(x.shape, copy_chunks, target_chunks)\n", "        target_chunks = normalize_chunks(target_chunks, x.shape, dtype=x.dtype)\n"))
+mutant("M86b-split-chunks-skips-first-axis", ["C05"], "RECHUNK-GRID-1", (OPS, "        for n, wc, tc in zip(shape, source_chunks, target_chunks)\n    )", "        for n, wc, tc in zip(shape, source_chunks, target_chunks)\n        if n > 1\n    )"))
+mutant("M87-threads-executor-drops-callbacks", ["C13"], "EVENTS-1", (LOCAL, "            await async_map_dag(\n                create_futures_func,\n                dag=dag,\n                callbacks=callbacks,\n                compute_arrays_in_parallel=compute_arrays_in_parallel,\n                **kwargs,\n            )\n        finally:\n            # don't wait for any cancelled tasks\n            concurrent_executor.shutdown(wait=False)\n\n\ndef processes_create_futures_func", "            await async_map_dag(\n                create_futures_func,\n                dag=dag,\n                callbacks=None,\n                compute_arrays_in_parallel=compute_arrays_in_parallel,\n                **kwargs,\n            )\n        finally:\n            # don't wait for any cancelled tasks\n            concurrent_executor.shutdown(wait=False)\n\n\ndef processes_create_futures_func"))
